@@ -34,6 +34,7 @@ type proofCase struct {
 	Tree bool // consistency proof instead of inclusion proof
 	T, N int64
 	Mut  mutation
+	Mut2 *mutation // optional second mutation of the same tuple
 }
 
 func genSize(t *rapid.T, max int64, label string) int64 {
@@ -55,7 +56,7 @@ func genSize(t *rapid.T, max int64, label string) int64 {
 }
 
 var mutOps = []string{"none", "none", "flip-proof-bit", "drop", "dup", "swap", "append", "prepend", "reverse", "truncate-all",
-	"index-delta", "index-set", "t-delta", "t-set", "n-set", "flip-leaf", "flip-root", "flip-old-root", "other-proof", "cross-kind", "swap-sizes"}
+	"index-delta", "index-set", "t-delta", "t-set", "n-set", "flip-leaf", "flip-root", "flip-old-root", "other-proof", "cross-kind", "swap-sizes", "zero-root", "zero-leaf", "zero-roots"}
 
 var oddSizes = []int64{0, -1, -5, 1 << 62, 1<<62 + 1, 1<<63 - 1, -1 << 63, 1, 2}
 
@@ -80,17 +81,25 @@ func genCase(t *rapid.T) proofCase {
 			c.N = []int64{0, c.T - 1, c.T / 2}[rapid.IntRange(0, 2).Draw(t, "nedge")]
 		}
 	}
-	m := mutation{Op: mutOps[rapid.IntRange(0, len(mutOps)-1).Draw(t, "op")]}
-	m.I = rapid.IntRange(0, 20).Draw(t, "i")
-	m.J = rapid.IntRange(0, 20).Draw(t, "j")
-	m.Bit = rapid.IntRange(0, 255).Draw(t, "bit")
-	m.Delta = int64(rapid.IntRange(-2, 2).Draw(t, "delta"))
-	if rapid.IntRange(0, 3).Draw(t, "odd") == 0 {
-		m.Delta = oddSizes[rapid.IntRange(0, len(oddSizes)-1).Draw(t, "oddv")]
+	genMut := func(label string) mutation {
+		m := mutation{Op: mutOps[rapid.IntRange(0, len(mutOps)-1).Draw(t, label+"op")]}
+		m.I = rapid.IntRange(0, 20).Draw(t, label+"i")
+		m.J = rapid.IntRange(0, 20).Draw(t, label+"j")
+		m.Bit = rapid.IntRange(0, 255).Draw(t, label+"bit")
+		m.Delta = int64(rapid.IntRange(-2, 2).Draw(t, label+"delta"))
+		if rapid.IntRange(0, 3).Draw(t, label+"odd") == 0 {
+			m.Delta = oddSizes[rapid.IntRange(0, len(oddSizes)-1).Draw(t, label+"oddv")]
+		}
+		m.T2 = genSize(t, max, label+"t2")
+		m.N2 = rapid.Int64Range(0, m.T2-1).Draw(t, label+"n2")
+		return m
 	}
-	m.T2 = genSize(t, max, "t2")
-	m.N2 = rapid.Int64Range(0, m.T2-1).Draw(t, "n2")
-	c.Mut = m
+	c.Mut = genMut("")
+	if c.Mut.Op != "none" && rapid.IntRange(0, 3).Draw(t, "second") == 0 {
+		// invalid tuples that differ from every valid one in two components at once
+		m2 := genMut("b")
+		c.Mut2 = &m2
+	}
 	return c
 }
 
@@ -141,18 +150,25 @@ func proveAndCompare(tree *merkleref.Tree, store []merkleref.Hash, isTree bool, 
 	if err := tlog.CheckRecord(p, t, tlog.Hash(tree.MTH(0, t)), n, tlog.Hash(merkleref.LeafHash(tree.Leaves[n]))); err != nil {
 		return nil, pbt.Failf("complete-record", "CheckRecord rejects the genuine proof for t=%d n=%d: %v", t, n, err)
 	}
+	// the leaf hash a caller of CheckRecord computes for the record's content is the RFC 6962 leaf hash
+	if got := tlog.RecordHash(tree.Leaves[n]); merkleref.Hash(got) != merkleref.LeafHash(tree.Leaves[n]) {
+		return nil, pbt.Failf("leaf-hash", "RecordHash of record %d (%d bytes) is not SHA-256(0x00 || data): the record's inclusion proof is checked against another leaf hash", n, len(tree.Leaves[n]))
+	}
 	return p, nil
 }
 
 func check(c proofCase) pbt.Result {
 	r := pbt.Result{}
-	if c.T < 1 || c.T > 20000 || c.Tree && (c.N < 1 || c.N > c.T) || !c.Tree && (c.N < 0 || c.N >= c.T) || c.Mut.T2 < 1 || c.Mut.T2 > 20000 || c.Mut.N2 < 0 || c.Mut.N2 >= c.Mut.T2 {
+	if c.T < 1 || c.T > 20000 || c.Tree && (c.N < 1 || c.N > c.T) || !c.Tree && (c.N < 0 || c.N >= c.T) || c.Mut.T2 < 1 || c.Mut.T2 > 20000 || c.Mut.N2 < 0 || c.Mut.N2 >= c.Mut.T2 || c.Mut2 != nil && (c.Mut2.T2 < 1 || c.Mut2.T2 > 20000 || c.Mut2.N2 < 0 || c.Mut2.N2 >= c.Mut2.T2) {
 		r.Skip = true
 		return r
 	}
 	maxT := c.T
 	if c.Mut.T2 > maxT {
 		maxT = c.Mut.T2
+	}
+	if c.Mut2 != nil && c.Mut2.T2 > maxT {
+		maxT = c.Mut2.T2
 	}
 	tree := tlogutil.Tree(c.Seed, maxT)
 	p, f := proveAndCompare(tree, tlogutil.Store(c.Seed, c.T), c.Tree, c.T, c.N)
@@ -172,83 +188,94 @@ func check(c proofCase) pbt.Result {
 		leaf = tlog.Hash(merkleref.LeafHash(tree.Leaves[c.N]))
 	}
 	isTree := c.Tree
-	m := c.Mut
-	applied := m.Op != "none"
-	switch m.Op {
-	case "flip-proof-bit":
-		if len(proof) > 0 {
-			i := m.I % len(proof)
-			proof[i] = flip(proof[i], m.Bit)
-		} else {
-			applied = false
-		}
-	case "drop":
-		if len(proof) > 0 {
-			i := m.I % len(proof)
-			proof = append(proof[:i:i], proof[i+1:]...)
-		} else {
-			applied = false
-		}
-	case "dup":
-		if len(proof) > 0 {
-			i := m.I % len(proof)
-			proof = append(proof[:i+1:i+1], proof[i:]...)
-		} else {
-			applied = false
-		}
-	case "swap":
-		if len(proof) > 1 {
-			i, j := m.I%len(proof), m.J%len(proof)
-			proof[i], proof[j] = proof[j], proof[i]
-		} else {
-			applied = false
-		}
-	case "append":
-		proof = append(proof, flip(root, m.Bit))
-	case "prepend":
-		proof = append([]tlog.Hash{leaf}, proof...)
-	case "reverse":
-		for i, j := 0, len(proof)-1; i < j; i, j = i+1, j-1 {
-			proof[i], proof[j] = proof[j], proof[i]
-		}
-	case "truncate-all":
-		proof = nil
-	case "index-delta":
-		n += m.Delta
-	case "index-set":
-		n = m.N2
-	case "t-delta":
-		t += m.Delta
-	case "t-set":
-		t = m.T2
-	case "n-set":
-		n = m.Delta
-	case "flip-leaf":
-		leaf = flip(leaf, m.Bit)
-	case "flip-root":
-		root = flip(root, m.Bit)
-	case "flip-old-root":
-		if c.Tree {
+	applied := c.Mut.Op != "none"
+	muts := []mutation{c.Mut}
+	if c.Mut2 != nil {
+		muts = append(muts, *c.Mut2)
+	}
+	for _, m := range muts {
+		switch m.Op {
+		case "zero-root":
+			root = tlog.Hash{}
+		case "zero-leaf":
+			leaf = tlog.Hash{}
+		case "zero-roots":
+			root, leaf = tlog.Hash{}, tlog.Hash{}
+		case "flip-proof-bit":
+			if len(proof) > 0 {
+				i := m.I % len(proof)
+				proof[i] = flip(proof[i], m.Bit)
+			} else {
+				applied = false
+			}
+		case "drop":
+			if len(proof) > 0 {
+				i := m.I % len(proof)
+				proof = append(proof[:i:i], proof[i+1:]...)
+			} else {
+				applied = false
+			}
+		case "dup":
+			if len(proof) > 0 {
+				i := m.I % len(proof)
+				proof = append(proof[:i+1:i+1], proof[i:]...)
+			} else {
+				applied = false
+			}
+		case "swap":
+			if len(proof) > 1 {
+				i, j := m.I%len(proof), m.J%len(proof)
+				proof[i], proof[j] = proof[j], proof[i]
+			} else {
+				applied = false
+			}
+		case "append":
+			proof = append(proof, flip(root, m.Bit))
+		case "prepend":
+			proof = append([]tlog.Hash{leaf}, proof...)
+		case "reverse":
+			for i, j := 0, len(proof)-1; i < j; i, j = i+1, j-1 {
+				proof[i], proof[j] = proof[j], proof[i]
+			}
+		case "truncate-all":
+			proof = nil
+		case "index-delta":
+			n += m.Delta
+		case "index-set":
+			n = m.N2
+		case "t-delta":
+			t += m.Delta
+		case "t-set":
+			t = m.T2
+		case "n-set":
+			n = m.Delta
+		case "flip-leaf":
 			leaf = flip(leaf, m.Bit)
-		} else {
-			root = flip(root, m.Bit+1)
+		case "flip-root":
+			root = flip(root, m.Bit)
+		case "flip-old-root":
+			if c.Tree {
+				leaf = flip(leaf, m.Bit)
+			} else {
+				root = flip(root, m.Bit+1)
+			}
+		case "other-proof":
+			// genuine proof of a different (t2, n2) presented for (t, n)
+			n2 := m.N2
+			if c.Tree {
+				n2++
+			}
+			p2, f := proveAndCompare(tree, tlogutil.Store(c.Seed, m.T2), c.Tree, m.T2, n2)
+			if f != nil {
+				r.Fail = f
+				return r
+			}
+			proof = append([]tlog.Hash(nil), p2...)
+		case "cross-kind":
+			isTree = !isTree
+		case "swap-sizes":
+			t, n = n, t
 		}
-	case "other-proof":
-		// genuine proof of a different (t2, n2) presented for (t, n)
-		n2 := m.N2
-		if c.Tree {
-			n2++
-		}
-		p2, f := proveAndCompare(tree, tlogutil.Store(c.Seed, m.T2), c.Tree, m.T2, n2)
-		if f != nil {
-			r.Fail = f
-			return r
-		}
-		proof = append([]tlog.Hash(nil), p2...)
-	case "cross-kind":
-		isTree = !isTree
-	case "swap-sizes":
-		t, n = n, t
 	}
 	r.NonTrivial = c.T >= 3 && (applied || len(p) >= 2)
 	kind := "record"
@@ -257,20 +284,48 @@ func check(c proofCase) pbt.Result {
 	}
 	var got error
 	var want bool
+	// the proof is handed over in a slice with spare capacity; a checker only reads it
+	backing := make([]tlog.Hash, len(proof)+3)
+	copy(backing, proof)
+	backing[len(proof)] = flip(root, 7)
+	proof = backing[:len(proof)]
+	keep := append([]tlog.Hash(nil), backing...)
 	if isTree {
 		got = tlog.CheckTree(proof, t, root, n, leaf)
-		want = merkleref.VerifyConsistency(toRef(proof), n, t, merkleref.Hash(leaf), merkleref.Hash(root))
+		want = merkleref.VerifyConsistency(toRef(keep[:len(proof)]), n, t, merkleref.Hash(leaf), merkleref.Hash(root))
 	} else {
 		got = tlog.CheckRecord(proof, t, root, n, leaf)
-		want = merkleref.VerifyInclusion(toRef(proof), t, merkleref.Hash(root), n, merkleref.Hash(leaf))
+		want = merkleref.VerifyInclusion(toRef(keep[:len(proof)]), t, merkleref.Hash(root), n, merkleref.Hash(leaf))
 	}
-	r.Classes = []string{fmt.Sprintf("%s op=%s accepted=%v", kind, m.Op, want)}
+	for i := range backing {
+		if backing[i] != keep[i] {
+			r.Fail = pbt.Failf("checker-writes-proof", "Check%s changed element %d of the caller's proof slice (len %d, cap %d)", kind, i, len(proof), cap(proof))
+			return r
+		}
+	}
+	var again error
+	if isTree {
+		again = tlog.CheckTree(proof, t, root, n, leaf)
+	} else {
+		again = tlog.CheckRecord(proof, t, root, n, leaf)
+	}
+	if (again == nil) != (got == nil) {
+		r.Fail = pbt.Failf("checker-not-repeatable", "Check%s gave %v and then %v for the same tuple", kind, got, again)
+		return r
+	}
+	m := c.Mut
+	opName := m.Op
+	if c.Mut2 != nil {
+		opName += "+" + c.Mut2.Op
+		r.Classes = append(r.Classes, "two mutations")
+	}
+	r.Classes = append(r.Classes, fmt.Sprintf("%s op=%s accepted=%v", kind, m.Op, want))
 	if (got == nil) != want {
-		r.Fail = pbt.Failf("soundness-"+kind, "Check%s(proof len %d, t=%d, n=%d) err=%v but the RFC 9162 verifier says accept=%v (case t=%d n=%d op=%s)", kind, len(proof), t, n, got, want, c.T, c.N, m.Op)
+		r.Fail = pbt.Failf("soundness-"+kind, "Check%s(proof len %d, t=%d, n=%d) err=%v but the RFC 9162 verifier says accept=%v (case t=%d n=%d op=%s)", kind, len(proof), t, n, got, want, c.T, c.N, opName)
 		return r
 	}
 	// provers refuse out-of-range arguments with an error
-	if m.Op == "index-delta" || m.Op == "t-delta" || m.Op == "n-set" || m.Op == "swap-sizes" {
+	if c.Mut2 == nil && (m.Op == "index-delta" || m.Op == "t-delta" || m.Op == "n-set" || m.Op == "swap-sizes") {
 		rd := tlogutil.Reader(tlogutil.Store(c.Seed, c.T))
 		if isTree {
 			inRange := t >= 1 && n >= 1 && n <= t
@@ -348,9 +403,20 @@ type hugeCase struct {
 	Tree bool
 	T, N int64
 	Mut  mutation
+	Mut2 *mutation // optional second mutation of the same tuple
 }
 
 func genHugeSize(t *rapid.T, label string) int64 {
+	if rapid.IntRange(0, 5).Draw(t, label+"beyond") == 0 {
+		// beyond what the provers can index (stored positions overflow above about 2^61): checkers only
+		switch rapid.IntRange(0, 3).Draw(t, label+"bk") {
+		case 0:
+			return []int64{1<<62 + 1, 1<<62 + 1<<61 + 5, 1<<63 - 2, 1<<63 - 1, 1 << 62, 1<<62 - 1, 1<<61 + 1, 1<<62 + 2}[rapid.IntRange(0, 7).Draw(t, label+"bv")]
+		case 1:
+			return 1<<62 + rapid.Int64Range(0, 1<<62-1).Draw(t, label+"br")
+		}
+		return 1<<61 + rapid.Int64Range(0, 1<<61).Draw(t, label+"br2")
+	}
 	k := rapid.IntRange(20, 59).Draw(t, label+"k")
 	base := int64(1) << uint(k)
 	switch rapid.IntRange(0, 5).Draw(t, label+"shape") {
@@ -381,7 +447,7 @@ func genHuge(t *rapid.T) hugeCase {
 	case 2:
 		// right at the split of the root
 		k := int64(1)
-		for k*2 < c.T {
+		for k <= (c.T-1)/2 {
 			k *= 2
 		}
 		c.N = k + int64(rapid.IntRange(-2, 2).Draw(t, "d"))
@@ -406,7 +472,7 @@ var uniformLog = merkleref.NewUniform([]byte("the same record every time\n"))
 
 func checkHuge(c hugeCase) pbt.Result {
 	r := pbt.Result{}
-	if c.T < 1 || c.T > 1<<61 || c.N < 0 || c.N >= c.T && !c.Tree || c.Tree && (c.N < 1 || c.N > c.T) {
+	if c.T < 1 || c.N < 0 || c.N >= c.T && !c.Tree || c.Tree && (c.N < 1 || c.N > c.T) {
 		r.Skip = true
 		return r
 	}
@@ -424,7 +490,30 @@ func checkHuge(c hugeCase) pbt.Result {
 	root := tlog.Hash(u.MTHSize(c.T))
 	var proof []tlog.Hash
 	var leaf tlog.Hash
-	if c.Tree {
+	fromRef := func(hs []merkleref.Hash) []tlog.Hash {
+		out := make([]tlog.Hash, len(hs))
+		for i, h := range hs {
+			out[i] = tlog.Hash(h)
+		}
+		return out
+	}
+	if c.T > 1<<60 {
+		// checkers only, on reference proofs
+		r.Classes = append(r.Classes, "beyond the provers' range")
+		if c.Tree {
+			proof, leaf = fromRef(u.Proof(c.N, c.T)), tlog.Hash(u.MTHSize(c.N))
+			if err := tlog.CheckTree(proof, c.T, root, c.N, leaf); err != nil {
+				r.Fail = pbt.Failf("complete-tree-huge", "CheckTree rejects the RFC 6962 consistency proof (%d hashes) for t=%d n=%d: %v", len(proof), c.T, c.N, err)
+				return r
+			}
+		} else {
+			proof, leaf = fromRef(u.Path(c.N, c.T)), tlog.Hash(u.MTHSize(1))
+			if err := tlog.CheckRecord(proof, c.T, root, c.N, leaf); err != nil {
+				r.Fail = pbt.Failf("complete-record-huge", "CheckRecord rejects the RFC 6962 audit path (%d hashes) for t=%d n=%d: %v", len(proof), c.T, c.N, err)
+				return r
+			}
+		}
+	} else if c.Tree {
 		p, err := tlog.ProveTree(c.T, c.N, reader)
 		want := u.Proof(c.N, c.T)
 		if err != nil || !eqProof(p, want) {
@@ -454,7 +543,7 @@ func checkHuge(c hugeCase) pbt.Result {
 		}
 	}
 	r.NonTrivial = true
-	r.Classes = []string{fmt.Sprintf("t~2^%d", bitsLen(c.T))}
+	r.Classes = append(r.Classes, fmt.Sprintf("t~2^%d", bitsLen(c.T)))
 	// one mutation, judged by the RFC 9162 verifier
 	proof = append([]tlog.Hash(nil), proof...)
 	t, n := c.T, c.N
